@@ -152,6 +152,15 @@ register('C14', 'p_c14', 'c14',
          'iff required, the cleartext equals the unsigned twin, sub-Manifests carry no signature, signing failure raised; with real gpg the result verifies with the signing key.',
          ORACLE + ['GnuPG: --clearsign output verifies with the signing key and authenticates the text given (exercised with gpg 2.2 on every run)'])
 
+register('C18', 'p_c18', 'c18',
+         'trees of the C01 generator (19 mutation kinds) and of the C03 generator (stale / absent / unregistered / compressed prior states), in 60% of the cases with 1-3 odd lines put into '
+         'one Manifest (duplicate IGNORE, unknown / unsupported hash names, out-of-range and surrogate escapes, escaped absolute paths, entries naming directories or lying below a regular '
+         'file, missing / negative / huge sizes, dangling checksum names, unknown tags, and lines of the C09 grammar generator); commands run in-process through gemato.cli.main: '
+         'verify [-k], update -H .. -p {default, ebuild, old-ebuild} on the whole tree and on sub-directories, create; outcome class = exit status or escaping exception class, '
+         'compared with the class the model predicts for the library operations behind the command; non-trivial = distinct (tree, odd lines, command)',
+         'Theorems in Properties/C18.v; an escaping exception other than OSError is a violation (damaged compressed streams are outside "UTF-8 Manifest text"); known findings are matched structurally.',
+         ORACLE)
+
 # ---- MANIFEST metadata per claimed property ------------------------------------------------
 NOT_APPLICABLE = {}
 META = {
@@ -266,6 +275,13 @@ META = {
               'valid signature (C14_decision, C14_sub_manifest_never_signed, C14_plain_when_off); a signer failure is the result of the save (C14_signing_failure_is_error); on success the bytes stored are '
               'the signer\'s output for exactly the dump of the entries written (C14_signed_content). That this output verifies with the signing key is GnuPG behaviour, exercised with real gpg.',
    level_note='About Model/Update.v save_manifest; the signed flag of a loaded Manifest is covered by C04/C05; the truncation of the file before a failing signer runs is visible in the model (write_file first).'),
+ 'C18': dict(engine='coq+cli', design_ref='DESIGN.md section 5 C18',
+   technique='Coq totality theorems (parser, entry compatibility) + in-process CLI runs over the generators of C01/C03/C09 with the outcome class compared to the executable model',
+   level_text='Proved in Coq for all inputs: every text is parsed or rejected with ManifestSyntaxError / ManifestUnsignedData, accepted entries are sane (C18_parser_total, C18_accepted_entries_sane); '
+              'the compatibility check of two entries for one path is total on parser-shaped entries, duplicate IGNORE included (C18_compatibility_total). PARTIAL: the model keeps internal-error '
+              'results to mirror the code; that none is reachable from verify / update / create is decided by CLI runs whose outcome class (exit status or escaping exception) is compared with the '
+              'model; reachable ones are known findings (D8, D12, D13, D21).',
+   level_note='About Model/{Text,Entry,Verify}.v; cli.py:602-634 (exception to exit status) is exercised, not modelled; zlib.error/EOFError from damaged compressed Manifests are reported as an observation (not UTF-8 text).'),
  'C09': dict(engine='coq+text', design_ref='DESIGN.md section 5 C09',
    technique='Coq theorems (totality of the parser result type by induction over lines; per-class rejection lemmas) + differential runs',
    level_text='Proved in Coq for every text: load returns entries, ManifestSyntaxError or ManifestUnsignedData and nothing else; accepted entries '
